@@ -22,7 +22,7 @@ FS = [list(c) for n in range(5) for c in itertools.combinations(CATS, n)]
 TASK_TIMEOUT = 900
 
 PRE = (
-    "from inline_snapshot import snapshot\n\n\n"
+    "from inline_snapshot import snapshot, outsource, external\n\n\n"
     "class Boom:\n    def __eq__(self, other):\n        raise ValueError('boom')\n    def __repr__(self):\n        return 'Boom()'\n\n\n"
     "class Ident:\n    pass\n\n\n"
 )
@@ -99,6 +99,13 @@ SHAPES = {
     "in-noncanon-trim-update": ["assert 3 in snapshot([0x10, 0x3])"],
     "sub-noncanon-trim-update": ["s = snapshot({'a': 0x10, 'b': 0x3})", "assert s['b'] == 3"],
     "eq-delete-and-insert": ["assert [0, 2, 9] == snapshot([1, 2, 3, 4])"],
+    # externals (storage is touched in the finish phase)
+    "outsource-create": ["assert outsource('data-x') == snapshot()"],
+    "outsource-create-and-trim": ["assert outsource('data-y') == snapshot()", "assert 5 in snapshot([5, 6])"],
+    "outsource-fix": ["assert outsource('data-z') == snapshot(external('0123456789ab*.txt'))"],
+    "outsource-in-list": ["assert [outsource('a1'), outsource(b'b2')] == snapshot([1])"],
+    "outsource-then-raise": ["assert outsource('data-w') == snapshot()", "raise ValueError('x')"],
+    "outsource-sub": ["s = snapshot({'old': 1})", "assert s['new'] == outsource('data-v')"],
 }
 
 
